@@ -34,7 +34,9 @@ type vWorld struct {
 	leakRegion bool // the fault fired after an Alloc succeeded and before any create attempt
 	crashMode  bool // the "fault" is a crash of the core process: from that call on nothing has any effect
 	frozen     bool
-	repair     bool           // GetNodeResourceInfo(fix=true) repairs usage
+	repair     bool                    // GetNodeResourceInfo(fix=true) repairs usage
+	siteFaults map[string]map[int]bool // two-fault mode: site -> failing occurrences
+	siteCalls  map[string]int
 	applied    map[string]int // container id -> amount the engine applied
 	running    map[string]bool
 	calls      int
@@ -47,6 +49,15 @@ type vWorld struct {
 func (w *vWorld) fault(site string) bool {
 	if w.frozen {
 		return true // the process is dead: nothing reaches the outside world any more
+	}
+	if w.siteFaults != nil {
+		// two-fault mode: the n-th call of a given (forward-only) site fails
+		w.siteCalls[site]++
+		if w.siteFaults[site] != nil && w.siteFaults[site][w.siteCalls[site]] {
+			w.site += site + ";"
+			return true
+		}
+		return false
 	}
 	w.calls++
 	w.sites = append(w.sites, site)
